@@ -3,6 +3,7 @@
 worktree: (i) demo passes without the change, (ii) with the change the crate builds and the 72 unit tests pass,
 (iii) the demo fails with the change. Keeps confirmed ones as /verif/seeded/<id>-<v>/ (patch.diff, demo.rs, notes.md,
 meta.json). Scratch worktree is removed afterwards."""
+REL = "--release" if __import__("os").environ.get("SEED_RELEASE") else ""
 import json, os, shutil, subprocess, sys
 
 OUT = os.environ.get("SEED_OUT", "/tmp/seed/out")
@@ -39,17 +40,17 @@ def main():
                 shutil.copy(demo, os.path.join(WT, "tests", "seed_demo.rs"))
                 feat = "--features unstable" if "unstable" in open(demo).read() or "unstable" in open(os.path.join(d, "notes.md")).read().lower().split("no `unstable`")[0][-400:] else ""
                 # (i) demo on unchanged code
-                rc1, o1 = sh("cargo test --offline %s --test seed_demo 2>&1 | tail -15" % feat, cwd=WT)
+                rc1, o1 = sh("cargo test --offline %s %s --test seed_demo 2>&1 | tail -15" % (REL, feat), cwd=WT)
                 if "test result: ok" not in o1 and feat == "":
                     feat = "--features unstable"
-                    rc1, o1 = sh("cargo test --offline %s --test seed_demo 2>&1 | tail -15" % feat, cwd=WT)
+                    rc1, o1 = sh("cargo test --offline %s %s --test seed_demo 2>&1 | tail -15" % (REL, feat), cwd=WT)
                 pass_clean = "test result: ok" in o1 and "FAILED" not in o1
                 # apply
                 rc, oa = sh("git apply %s || git apply -3 %s" % (patch, patch), cwd=WT)
                 applied = rc == 0
                 rc2, o2 = sh("cargo test --offline --lib 2>&1 | tail -5", cwd=WT) if applied else (1, "")
                 suite_ok = "72 passed; 0 failed" in o2
-                rc3, o3 = sh("cargo test --offline %s --test seed_demo 2>&1 | tail -25" % feat, cwd=WT) if applied else (1, "")
+                rc3, o3 = sh("cargo test --offline %s %s --test seed_demo 2>&1 | tail -25" % (REL, feat), cwd=WT) if applied else (1, "")
                 demo_fails = applied and ("FAILED" in o3 or "panicked" in o3 or "error" in o3.lower()) and "test result: ok" not in o3.split("Running")[-1]
                 ok = pass_clean and applied and suite_ok and demo_fails
                 results[name] = {"demo_passes_unchanged": pass_clean, "applies": applied, "suite_72_pass": suite_ok,
@@ -65,9 +66,9 @@ def main():
                     shutil.copy(os.path.join(d, "notes.md"), os.path.join(k, "notes.md"))
                     meta = {"id": name, "property": pid, "base_commit": subprocess.check_output("git -C /repo rev-parse HEAD", shell=True).decode().strip(),
                             "confirmed": results[name],
-                            "ran": ["cargo test --offline %s --test seed_demo (unchanged: pass)" % feat,
+                            "ran": ["cargo test --offline %s %s --test seed_demo (unchanged: pass)" % (REL, feat),
                                     "git apply patch.diff; cargo test --offline --lib (72 passed)",
-                                    "cargo test --offline %s --test seed_demo (with change: fails)" % feat]}
+                                    "cargo test --offline %s %s --test seed_demo (with change: fails)" % (REL, feat)]}
                     json.dump(meta, open(os.path.join(k, "meta.json"), "w"), indent=1)
                 else:
                     print("  -- unchanged demo tail:", o1[-300:].replace("\n", " | "))
